@@ -16,6 +16,11 @@ RULE = (
     "the saved one, reopened document equal part by part; flat XML: well-formed, office:mimetype, tokens included. "
     "Evaluations = machine steps. Non-trivial history = lazily opened document saved with at least one part never read and "
     ">= 1 edit, or a set_part of an XML part; distinct by (source, ops)."
+    ' Sources also as transformed copies (comments and processing instructions around/inside the roots; ISO-8859-1 and UTF-'
+    '16 encodings of the XML parts; directory entries repeated in the zip directory); saves also in place (over the file or'
+    ' folder the document came from; inplace_cycle); wrappers kept across saves (body, a paragraph, a style, meta) and edit'
+    'ed without asking the document again (kept_cycle). Whole-document canonical form includes comments/PIs around the root'
+    '.'
 )
 ASSUMPTIONS = [
     "zipfile, os.walk and lxml C14N are correct; the package model mirrors only documented effects (add_file adds one part, del_part removes one, set_part replaces bytes)",
